@@ -205,8 +205,10 @@ impl NCase {
                     1 => format!(".fields(Fields::unnamed().{fm}(|f| {}))", good_field(p, false, d)),
                     _ => ".discriminant(3)".to_string(),
                 };
-                let neg = format!("    let t: Type<{f}> = {b}.path({}){td}.variant(Variants::new().variant({}, |v| v{fields}));", path(p), s(p, "A"));
-                let twin = format!("    let t: Type<{f}> = {b}.path({}){td}.variant(Variants::new().variant({}, |v| v{fields}.index(1)));", path(p), s(p, "A"));
+                // the builder handed to the closure, or a fresh one from the public constructor
+                let (vb, arg) = if v / 3 % 2 == 1 { (format!("VariantBuilder::new({})", s(p, "A")), "_v") } else { ("v".to_string(), "v") };
+                let neg = format!("    let t: Type<{f}> = {b}.path({}){td}.variant(Variants::new().variant({}, |{arg}| {vb}{fields}));", path(p), s(p, "A"));
+                let twin = format!("    let t: Type<{f}> = {b}.path({}){td}.variant(Variants::new().variant({}, |{arg}| {vb}{fields}.index(1)));", path(p), s(p, "A"));
                 Programs { negative: wrap_main(&neg), twin: wrap_main(&twin), builder: true, what: "variant without an index", sig: "builder-accepts" }
             }
             2 => {
@@ -227,6 +229,14 @@ impl NCase {
                         builder: true,
                         what: "field without a type (builder state obtained from Default)",
                         sig: "default-typestate",
+                    },
+                    3 => Programs {
+                        // a fresh builder from the public constructor instead of the one handed in
+                        negative: wrap_main(&format!("    let t: Type<{f}> = {b}.path({}){td}.composite({ctor}.{fm}(|_f| FieldBuilder::new(){name}{tn}));", path(p))),
+                        twin: wrap_main(&format!("    let t: Type<{f}> = {b}.path({}){td}.composite({ctor}.{fm}(|f| {}));", path(p), good_field(p, named, d))),
+                        builder: true,
+                        what: "field without a type (builder from FieldBuilder::new())",
+                        sig: "builder-accepts",
                     },
                     _ => Programs {
                         negative: wrap_main(&format!("    let t: Type<{f}> = {b}.path({}){td}.composite({ctor}.{fm}(|f| f{name}{tn}));", path(p))),
@@ -520,13 +530,17 @@ const BUILDER_CODES: [&str; 8] = ["E0599", "E0308", "E0271", "E0277", "E0631", "
 pub fn negative_body(c: &NCase, obs: &mut Obs) -> Result<(), String> {
     let a = farm::anchor(&FULL)?;
     let progs = c.programs();
-    let twin = farm::compile(&a, &progs.twin, false)?;
-    if !twin.success {
-        return Err(format!("harness bug: the positive twin does not compile ({}): {}", progs.what, twin.summary()));
-    }
+    // the ill-formed program first: if it compiles, that is the violation whatever else is true
     let neg = farm::compile(&a, &progs.negative, false)?;
     if neg.success {
         return obs.fail_sig(progs.sig, format!("an ill-formed construction compiles ({}): {}", progs.what, progs.negative.lines().filter(|l| l.contains("let t") || l.contains("scale_info(") || l.contains("union") || l.contains("pub struct")).collect::<Vec<_>>().join(" ")));
+    }
+    // the positive twin shows that the rejection is due to the defect alone. A twin that does not
+    // compile says nothing about C20 (a well-formed definition being rejected is C13 / C17
+    // matter): the case is discarded and counted, and the search goes on
+    let twin = farm::compile(&a, &progs.twin, false)?;
+    if !twin.success {
+        return Err(format!("generator-invalid: the positive twin does not compile ({}): {}", progs.what, twin.summary()));
     }
     let codes = neg.error_codes();
     if codes.iter().any(|c| TYPO_CODES.contains(&c.as_str())) || neg.errors().iter().any(|d| d.message.starts_with("expected") && d.code.is_none() && progs.builder) {
